@@ -11,6 +11,7 @@
 -/
 import Pylx.L2TDrv
 import Pylx.SpecText
+import PylxProofs.C02Tok
 namespace Pylx.L2T.C03
 open Pylx Pylx.L2T
 
@@ -644,22 +645,131 @@ theorem C03_append_false :
 
 open Pylx.Doc in
 /-- no whitespace item directly after a call without written arguments of a control word (that whitespace is the
-    call's post-space and must be written there; `Doc.WF` alone admits it, see `C02.C02_full_false`) -/
+    call's post-space and must be written there).  Since the repair of `Doc.WF` (a control word without written argument
+    and with an empty `post` is not followed by whitespace other than a paragraph break) this is implied by `WF`:
+    `postSpaceInCall_of_WF`. -/
 def postSpaceInCall : List Item → Bool
   | [] => true
   | .M name _ args :: .W _ :: _ => !(isControlWord name && isBareArgs args)
   | _ :: tl => postSpaceInCall tl
 
 open Pylx.Doc in
-/-- **C03, full statement** (a proposition, NOT proved: the round trip `parse ∘ unparse` is proved in `C02_core` only up
-    to whitespace-only nodes and post-spaces and for the strict parser, which is not enough to transport the tree-level
-    laws to strings; the statement is tied to the implementation by the `L2T` / `SPEC` correspondences and the
-    specification oracle of `harness/props/c03.py`, and checked by kernel evaluation on the instances below): for every
-    option set, all library oracles and every well-formed document of the core sublanguage, `latex_to_text` of the
-    document's source is the text given by the documented rules. -/
+theorem unparseArgs_bare : ∀ (args : List ArgVal), isBareArgs args = true → unparseArgs args = []
+  | [], _ => by simp only [unparseArgs]
+  | a :: tl, h => by
+    unfold isBareArgs at h
+    simp only [List.any_cons, Bool.not_eq_eq_eq_not, Bool.not_true, Bool.or_eq_false_iff] at h
+    have ih := unparseArgs_bare tl (by unfold isBareArgs; rw [h.2]; rfl)
+    cases a <;> first
+      | (simp only [unparseArgs]; exact ih)
+      | (simp [argWritten] at h)
+
+open Pylx.Doc in
+/-- **the helper hypothesis of the earlier statement of `C03_full` follows from the repaired `Doc.WF`** (for every
+    context, nesting level and continuation) -/
+theorem postSpaceInCall_of_wfItems (ctx : Ctx) : ∀ (d : List Item) (inMath : Bool) (after : Str),
+    wfItems ctx inMath after d = true → postSpaceInCall d = true
+  | [], _, _, _ => rfl
+  | .M name post args :: tl, m, after, h => by
+    have htl : wfItems ctx m after tl = true := by
+      simp only [wfItems, Bool.and_eq_true] at h
+      exact h.2
+    cases tl with
+    | nil => simp only [postSpaceInCall]
+    | cons it tl' =>
+      cases it with
+      | W w =>
+        simp only [postSpaceInCall, Bool.not_eq_eq_eq_not, Bool.not_true, Bool.and_eq_false_iff]
+        cases hcw : isControlWord name with
+        | false => exact Or.inl rfl
+        | true =>
+          right
+          cases hb : isBareArgs args with
+          | false => rfl
+          | true =>
+            exfalso
+            simp only [wfItems, Bool.and_eq_true, hcw, if_true, Bool.not_eq_eq_eq_not, Bool.not_true, decide_eq_true_eq] at h htl
+            obtain ⟨⟨⟨_, hpost⟩, _⟩, _⟩ := h
+            obtain ⟨⟨⟨⟨hne, hws⟩, hnl⟩, hhead⟩, _⟩ := htl
+            rw [unparseArgs_bare args hb] at hpost
+            simp only [unparseItems, List.nil_append, List.append_assoc] at hpost
+            have hsp : headIs isPySpace (w ++ (unparseItems tl' ++ after)) = true := by
+              cases w with
+              | nil => simp at hne
+              | cons c w =>
+                simp only [isWs, List.all_cons, Bool.and_eq_true] at hws
+                simp [headIs, hws.1]
+            obtain ⟨_, hpost⟩ := hpost
+            split at hpost
+            · simp only [Bool.and_eq_true, Bool.not_eq_eq_eq_not, Bool.not_true, Bool.or_eq_true] at hpost
+              rcases hpost.2 with h1 | h1
+              · rw [hsp] at h1; cases h1
+              · unfold parStart at h1
+                rw [C02.takeWhile_ws hws hhead] at h1
+                simp only [Bool.and_eq_true, decide_eq_true_eq] at h1
+                omega
+            · simp only [Bool.not_eq_eq_eq_not, Bool.not_true] at hpost
+              rw [hsp] at hpost; cases hpost
+      | _ =>
+        have := postSpaceInCall_of_wfItems ctx _ m after htl
+        exact this
+  | .T _ :: tl, m, after, h => by
+    simp only [wfItems, Bool.and_eq_true] at h
+    simp only [postSpaceInCall]; exact postSpaceInCall_of_wfItems ctx tl m after h.2
+  | .W _ :: tl, m, after, h => by
+    simp only [wfItems, Bool.and_eq_true] at h
+    simp only [postSpaceInCall]; exact postSpaceInCall_of_wfItems ctx tl m after h.2
+  | .P _ :: tl, m, after, h => by
+    simp only [wfItems, Bool.and_eq_true] at h
+    simp only [postSpaceInCall]; exact postSpaceInCall_of_wfItems ctx tl m after h.2
+  | .G _ :: tl, m, after, h => by
+    simp only [wfItems, Bool.and_eq_true] at h
+    simp only [postSpaceInCall]; exact postSpaceInCall_of_wfItems ctx tl m after h.2
+  | .E _ _ _ :: tl, m, after, h => by
+    simp only [wfItems, Bool.and_eq_true] at h
+    simp only [postSpaceInCall]; exact postSpaceInCall_of_wfItems ctx tl m after h.2
+  | .F _ _ :: tl, m, after, h => by
+    simp only [wfItems, Bool.and_eq_true] at h
+    simp only [postSpaceInCall]; exact postSpaceInCall_of_wfItems ctx tl m after h.2
+  | .C _ _ :: tl, m, after, h => by
+    have htl : wfItems ctx m after tl = true := by
+      cases tl with
+      | nil => simp only [wfItems]
+      | cons it tl' =>
+        cases it <;> (rw [wfItems] at h <;> first
+          | (simp only [Bool.and_eq_true] at h; exact h.2)
+          | (intro _ _ h; cases h))
+    simp only [postSpaceInCall]; exact postSpaceInCall_of_wfItems ctx tl m after htl
+  | .S _ _ :: tl, m, after, h => by
+    simp only [wfItems, Bool.and_eq_true] at h
+    simp only [postSpaceInCall]; exact postSpaceInCall_of_wfItems ctx tl m after h.2
+  | .V _ _ :: tl, m, after, h => by
+    simp only [wfItems, Bool.and_eq_true] at h
+    simp only [postSpaceInCall]; exact postSpaceInCall_of_wfItems ctx tl m after h.2
+  | .VE _ _ _ _ :: tl, m, after, h => by
+    simp only [wfItems, Bool.and_eq_true] at h
+    simp only [postSpaceInCall]; exact postSpaceInCall_of_wfItems ctx tl m after h.2
+
+open Pylx.Doc in
+theorem postSpaceInCall_of_WF (ctx : Ctx) (d : List Item) (h : WF ctx d = true) : postSpaceInCall d = true :=
+  postSpaceInCall_of_wfItems ctx d false [] h
+
+open Pylx.Doc in
+/-- **C03, full statement** (a proposition): for every option set, all library oracles and every well-formed document
+    of the core sublanguage, `latex_to_text` of the document's source is the text given by the documented rules.
+
+    Proved in `PylxProofs/C03SCore.lean` (`Pylx.L2T.C03S.C03_full_core`) for every option set and every `CoreText`
+    document of the fragment `Doc.Core` on which the exact round trip is proved (`C03S.C02x_core_exact`: the strict parse
+    of `unparse d` is exactly the tree `d` was written with, whitespace nodes and post-spaces included;
+    `C03S.C03_exact_roundtrip`: so is the tolerant parse `latex_to_text` runs; `C03S.C03_render_erase_congr`: the renderer
+    does not depend on positions; `C03S.renderX_spec`: rule by rule the rendering is `specText`).  Outside `Doc.Core`
+    (an absent optional argument directly in front of a paragraph break, `\begin` or `\end`) the statement is tied to the
+    implementation by the `L2T` / `SPEC` correspondences and the specification oracle of `harness/props/c03.py`.  The
+    earlier helper hypothesis `postSpaceInCall d` is implied by the repaired `Doc.WF` (`postSpaceInCall_of_WF`) and was
+    dropped. -/
 def C03_full : Prop :=
   ∀ (opts : Opts) (lib : Lib) (d : List Item), opts.repaired = true →
-    WF Gen.defaultCtx d = true → postSpaceInCall d = true → CoreText d = true →
+    WF Gen.defaultCtx d = true → CoreText d = true →
     latexToText opts lib (unparse d) = .ok (specText opts lib d)
 
 def idLib : Lib := { nfc2 := fun c d => [c, d], upper := fun c => [c], today := ['J'] }
@@ -676,6 +786,11 @@ open Pylx.Doc in
 def exDocB : List Item :=
   [.G [.T ['a']], .W [' '], .G [.T ['b', 'c']], .F .brack [.W [' '], .T ['u'], .W [' ']], .P ['\n', '\n'],
    .E "itemize".toList [.absent] [.M "item".toList [' '] [.absent], .T ['p']], .M ['&'] [] [], .W [' '], .S ['-', '-'] []]
+
+set_option maxRecDepth 100000 in
+/-- non-vacuity of `postSpaceInCall_of_WF`: the example documents are well formed -/
+example : postSpaceInCall exDocA = true ∧ postSpaceInCall exDocB = true :=
+  ⟨postSpaceInCall_of_WF Gen.defaultCtx exDocA (by decide +kernel), postSpaceInCall_of_WF Gen.defaultCtx exDocB (by decide +kernel)⟩
 
 set_option maxRecDepth 100000 in
 /-- the full statement holds on concrete documents exercising every rule, under the default policy, `based-on-source`,
